@@ -243,3 +243,9 @@ Fixpoint run (s : state) (ops : list op) : state * list (option out) :=
 (** end of life: all three variables are destroyed *)
 Definition final_bad (s : state) : bool :=
   sbad s || existsb destruct_ring (vars s).
+
+(** number of constructed slots over all variables (the lifetime ledger's live count) *)
+Definition live_slots (s : state) : nat :=
+  fold_left (fun a r => a + match data r with
+                             | Some d => length (filter (fun x => match x with Some _ => true | None => false end) d)
+                             | None => 0 end) (vars s) 0.
